@@ -375,6 +375,23 @@ def check_rescale(s, rule="C13.5"):
          detail=show_term(nz.canon(comp), 300))
     s.eq(rule, con + ".box", nz, f["box"], s.ref(b, "Box(low=mn, high=mx, shape=box.shape)", dict(ref, Box=("global", "lerax.space.box.Box"), box=("param", "box"))),
          "the advertised box is Box(min, max) of the original shape", loc, key="new-box")
+    # an unbounded side of the original box cannot be mapped onto a bounded side of the new one (or back): the gradient is
+    # (max - min) / inf = 0 and the intercept -inf * 0 = NaN, so every observation / action of that component becomes NaN without a
+    # word. Gymnasium, whose logic this is, refuses such a request with two assertions; the same two guards have to be here (as asserts
+    # or as raising tests): where either bound is infinite, the old and the new bound coincide
+    guards = {nz.canon(t_) for t_, _ln in p.asserts}
+    for other in s.fpaths(b, "lerax.wrapper.utils", "rescale_box"):
+        if other.raised is not None:
+            for t_, v_ in other.conds:
+                guards.add(nz.canon(t_) if v_ is False else nz.canon(("un", "Not", t_)))
+    for side, new_, old_ in (("lower", "mn", "box.low"), ("upper", "mx", "box.high")):
+        wants = [nz.canon(s.ref(b, e, dict(ref, box=("param", "box")))) for e in (
+            f"jnp.all(({new_} == {old_})[jnp.isinf({new_}) | jnp.isinf({old_})])",
+            f"jnp.all(jnp.where(jnp.isinf({new_}) | jnp.isinf({old_}), {new_} == {old_}, True))",
+            f"jnp.all(jnp.isinf({new_}) == jnp.isinf({old_}))")]
+        s.ob(rule, con, any(w in guards for w in wants), f"an infinite {side} bound is only ever mapped onto the same infinite bound (guarded like Gymnasium's rescale_box)", loc,
+             key=f"rescale-infinite-{side}", detail=f"{len(p.asserts)} assertion(s) in rescale_box",
+             necessary_for="rescaled observations / actions are members of the declared box, never NaN (RescaleObservation over a space with unbounded components)")
     # the coefficient arrays are created with ones_like / zeros_like of a template and then receive FLOAT values by scatter: the
     # template has to be float by construction (cast with dtype=float, or a Box bound, which Box.__init__ casts) - `min` / `max` as the
     # caller passed them may be Python ints (`RescaleAction(env, min=-1, max=1)`), the scatter then truncates g to 0 and x/g is inf
